@@ -112,6 +112,7 @@ def handle (line : String) : String :=
   | "sertext" :: rest => Sql.Driver.cmdSerText rest
   | "caseconv" :: rest => Sql.Driver.cmdCaseConv rest
   | "fmtstmt" :: rest => Sql.Driver.cmdFmtStmt rest
+  | "fmt" :: rest => Sql.Driver.cmdFmt rest
   -- <<< formatting-side commands
   | _ => "bad-request"
 
